@@ -8,7 +8,7 @@ TREES = ["seq2", "two_if", "nested", "catch_act", "catch_step", "catch_two_codes
 
 def main(tier, seed):
     c = Check("C20", tier, seed)
-    names = TREES if tier == "quick" else [n for n in scen.catalogue() if "block" not in n and "par" not in n]
+    names = TREES if tier == "quick" else [n for n in scen.catalogue() if "block" not in n and "par" not in n and n != "no_ids"]   # no_ids: generated ids, nothing to compare the declaration with
     jobs = [("props.models", "tree", ("C20", n)) for n in names]
     jobs.append(("props.models", "deploy", ("C20",)))
     jobs.append(("props.models", "timeout_limit", ("C20",)))
